@@ -840,7 +840,7 @@ def prop_C15(ctx):
             singles.append(it)
     if q:
         singles = sample(ctx.rng, singles, 5000)
-    CHILD_GROUP = {'child_without_child_parents', 'child_path_missing_in_child_parents', 'duplicate_default_type_level', 'duplicate_dedicated_type_level',
+    CHILD_GROUP = {'child_without_child_parents', 'child_path_missing_in_child_parents', 'child_path_only_in_shadowed_child_parents', 'duplicate_default_type_level', 'duplicate_dedicated_type_level',
                    'unknown_counterpart_type_level'}
     REBUILDERS = {'untyped_nested_parent', 'unnamed_nested_member', 'trait_repeat_not_terminated', 'trait_repeat_overrides', 'parameter_set_twice',
                   'unsupported_repeat_type', 'missing_error_type', 'superfluous_error_type', 'tuple_to_named_without_names', 'duplicate_instruction',
